@@ -14,6 +14,24 @@ def o_wind_decomp(case):
     th = np.radians(wd)
     if not (abs(u + s * np.sin(th)) <= 1e-12 * max(1, abs(s)) and abs(v + s * np.cos(th)) <= 1e-12 * max(1, abs(s))):
         return fail("C08/convention", "(u, v) is not -s*(sin wd, cos wd)", None, [-s * np.sin(th), -s * np.cos(th)], [float(u), float(v)], 1e-12)
+    # "for every wind direction": whole-degree directions and speeds arrive as Python ints, numpy integers, float32, 0-d arrays and
+    # integer-typed series (a YAML `wind_dir: 280`, a column of a data frame) - the decomposition is the same function of the NUMBER
+    wi, si = int(round(wd)) % 360, int(s) + 1
+    ru, rv = compute_wind_fields(float(si), float(wi))
+    for nm, (aw, asp) in dict(pyint=(wi, si), npint=(np.int64(wi), np.int32(si)), f32=(np.float32(wi), np.float32(si)),
+                              zerod=(np.array(wi), np.array(float(si))), mixed=(wi, float(si)), mixed2=(float(wi), si)).items():
+        gu, gv = compute_wind_fields(asp, aw)
+        if not (abs(float(gu) - ru) <= 1e-6 * si and abs(float(gv) - rv) <= 1e-6 * si) or (nm != "f32" and not (abs(float(gu) - ru) <= 1e-12 * si and abs(float(gv) - rv) <= 1e-12 * si)):
+            return fail("C08/dtype", "wind decomposition of speed %r, direction %r (%s) differs from the same numbers given as floats" % (asp, aw, nm),
+                        None, [float(ru), float(rv)], [float(gu), float(gv)], 1e-12)
+    dirs = np.array([wi, (wi + 37) % 360, 90, 280], dtype=np.int64)
+    for arr in (dirs, dirs.astype(float), dirs.astype(np.int32)):
+        gu, gv = compute_wind_fields(float(si), arr)
+        for k, dk in enumerate(dirs):
+            eu, ev = compute_wind_fields(float(si), float(dk))
+            if not (abs(float(np.asarray(gu)[k]) - eu) <= 1e-12 * si and abs(float(np.asarray(gv)[k]) - ev) <= 1e-12 * si):
+                return fail("C08/dtype", "wind decomposition of a %s series of directions differs from the element-wise one at %d degrees" % (arr.dtype, int(dk)),
+                            None, [float(eu), float(ev)], [float(np.asarray(gu)[k]), float(np.asarray(gv)[k])], 1e-12)
     for d, (eu, ev) in {0.0: (0, -1), 90.0: (-1, 0), 180.0: (0, 1), 270.0: (1, 0)}.items():
         uu, vv = compute_wind_fields(s, d)
         if not (abs(uu - eu * s) <= 1e-12 * abs(s) + 1e-15 and abs(vv - ev * s) <= 1e-12 * abs(s) + 1e-15):
@@ -32,6 +50,10 @@ def o_footprint_upwind(case):
     rlat, rlon = case["ref_lat"], case["ref_lon"]
     tlat, tlon = xy_to_latlon(xmax / 2, ymax / 2, rlat, rlon)
     met = dict(wind_speed=case["speed"], wind_dir=case["wd"], mol=case["mol"])
+    if case.get("int_typed"):
+        # whole numbers as a YAML file delivers them: Python ints
+        met["wind_dir"] = int(case["wd"])
+        met["wind_speed"] = int(case["speed"])
     if case["forcing"] == "z0":
         met["z0"] = case["z0"]
     else:
@@ -107,7 +129,15 @@ def run(rng, tier, deep):
     # the four cardinal directions EXACTLY (0.0 is falsy in Python), 360.0, and a negative / wrapped equivalent
     for wd in (0.0, 90.0, 180.0, 270.0, 360.0, -90.0, 450.0)[: (7 if (deep or tier == "thorough") else 5)]:
         run_oracle(st, o_footprint_upwind, upwind_case(rng, wd=wd))
-    return finish(st, "wind decomposition: speeds 0.1..20, directions incl. cardinals and out-of-range angles (correspondence 1e-13); "
+    for _ in range(budget(tier, deep, 2, 12)):
+        c = upwind_case(rng, wd=float(int(rng.integers(1, 360))))
+        if c["wd"] % 90 == 0:
+            c["wd"] += 10.0
+        c.update(int_typed=True, speed=float(int(rng.integers(2, 8))))
+        if c["closure"] == "OAAHOC":
+            c["ustar"] = float(np.sqrt(0.0856 * 0.845 * c["speed"] / np.log(c["zm"] / c["z0"])))
+        run_oracle(st, o_footprint_upwind, c)
+    return finish(st, "wind decomposition: speeds 0.1..20, whole-degree directions and speeds as int / numpy int / float32 / 0-d array / integer series, directions incl. cardinals and out-of-range angles (correspondence 1e-13); "
                   "end-to-end: configs built with parse_config_dict, tower at the domain centre given by lat/lon, 48..64 cells, square and oblong, "
                   "all four closures, stable/neutral/unstable, ustar and z0 forcing, wind directions evenly covering [0,360); oracle: bearing of the "
                   "footprint centroid vs wind_dir (8 degrees; worst observed on the clean tree 5.1)", deep, 1e-13)
